@@ -7,7 +7,10 @@ Modules
   odata_ref.py     independent OData reference semantics (symbolic and concrete) on the generator's own terms
   symdb.py         symbolic rows / bounded symbolic database, decoding and loading into a real sqlite3
   filtergen.py     typed OData filter generator (terms + texts)
-  validate.py      model validation: sqlite_model vs sqlite3, odata_ref symbolic vs concrete
+  tv.py            interpreted-mode driver: live pipeline -> parse -> z3 over all rows -> replay on real sqlite3
+  validate.py      model validation: sqlite_model vs sqlite3 (scalar + EXISTS/JOIN), odata_ref symbolic vs concrete,
+                   parser on the repo's pinned SQL strings
+  selftest.py      in-memory mutants of the visitors that every run must report (vacuity guard)
   ufmode.py        UF mode: dialect functions uninterpreted, template table, validity of SQLterm == ODataTerm
   regions.py       known-finding region predicates implemented in the checks
 """
